@@ -1,6 +1,7 @@
 import SplinkVerif.Drv.Util
 import SplinkVerif.Drv.Arith
 import SplinkVerif.Model.Accuracy
+import SplinkVerif.Model.AccSql
 namespace SplinkVerif.Drv
 open Lean SplinkVerif SplinkVerif.Accuracy
 
@@ -76,6 +77,29 @@ def handleAccTruth (j : Json) : Except String Json := do
       Json.num r.fp, Json.num r.fn,
       Json.arr (([q.matchProbability, q.pRate, q.nRate, q.tpRate, q.tnRate, q.fpRate, q.fnRate, q.precision, q.recall,
         q.specificity, q.npv, q.accuracy, q.f1, q.f2, q.f05, q.p4, q.phi].map bitsOfFloat).toArray)]
+  pure <| Json.mkObj [("rows", Json.arr out.toArray)]
+
+/-- `{"op":"acc_sql", rows, "thr":bits, "round":bits|null, "f32":bool}` (labels from a table: the option
+`positives_not_captured_by_blocking_rules_scored_as_zero` is always on): the regenerated truth-space SQL
+(Generated/AccSql.lean) under `Rel.eval` → rows `[ttBits,total,p,n,tp,tn,fp,fn]` before the final cutoff. -/
+def handleAccSql (j : Json) : Except String Json := do
+  let xs ← parseScored j
+  let thr ← keyOfBits (← j.getObjVal? "thr")
+  let round ← optOf floatOfBits (j.getObjValD "round")
+  let f32 ← getBool j "f32"
+  let lwp : List Rel.Row := xs.map fun x => [Rel.Val.int (bucketOf round f32 x.weight), Rel.Val.int x.score, Rel.Val.bool x.found]
+  let rows := AccSql.truthStats lwp (Rel.Val.int thr) (Rel.Val.int (ordKey (-999.0)))
+  let num : Rel.Val → Except String Json := fun v => match v with
+    | .int i => pure (Json.num (JsonNumber.fromInt i))
+    | .null => pure Json.null
+    | _ => throw "integer expected"
+  let out ← rows.mapM fun r => do
+    let tt ← match r.getD 0 .null with
+      | .int k => pure (bitsOfFloat (unKey k))
+      | _ => throw "truth_threshold key expected"
+    -- SQL column order: truth_threshold, total, P, N, FP, TP, FN, TN  →  protocol order tt,total,p,n,tp,tn,fp,fn
+    let c ← (List.range 8).mapM fun i => num (r.getD i .null)
+    pure (Json.arr #[tt, c[1]!, c[2]!, c[3]!, c[5]!, c[7]!, c[4]!, c[6]!])
   pure <| Json.mkObj [("rows", Json.arr out.toArray)]
 
 def jsonOfScored (x : Scored) : List Json :=
